@@ -83,7 +83,7 @@ func (mt *MerkleTree) Open(i int) (MerkleProof, error) {
 		posBound  = 1 << mt.Depth()
 	)
 
-	if i >= posBound {
+	if i < 0 || i >= posBound {
 		return nil, errors.New("error: index out of range")
 	}
 
@@ -121,6 +121,13 @@ func (proof MerkleProof) Verify(i int, leaf, root Hash) error {
 
 		curNode = CompressPoseidon2(a, b)
 		parentPos = parentPos >> 1
+	}
+
+	// the position must be consumed entirely by the proof: otherwise i is
+	// outside of the tree (i < 0 or i >= 2^len(proof)) and only its low bits
+	// would have been checked
+	if parentPos != 0 {
+		return errors.New("error: index out of range")
 	}
 
 	if curNode != root {
